@@ -10,5 +10,15 @@ func init() {
 		o.pins("internal/core/toposort", "indexComparison.compareNodeByName", "indexComparison.compareComponentsByNodes",
 			"Graph.Sort", "appendNodes", "Graph.StronglyConnectedComponents", "sccFinderState.findSCC",
 			"GraphBuilder.Build", "GraphBuilder.AddEdge", "GraphBuilder.EnsureNode")
+		// graph construction from struct literals (Model/VertexFeatures.lean)
+		o.pins("internal/core/toposort", "VertexFeatures", "vertexFeatures.addEdges", "vertexFeatures.compareStructMeta",
+			"structMetaBatch.isExplicit", "structMetaBatches.appendBatch", "analyseStructs", "structMeta.hasDynamic")
+		// the scanner's dispatch and loops (Model/ScanLoops.lean); scanNumber/scanMantissa are
+		// NOT transcribed (their extent is an oracle of the model; C09 owns the number automaton)
+		o.pins("cue/scanner", "Scanner.next", "Scanner.Init", "isLetter", "isDigit", "digitVal",
+			"Scanner.scanIdentifier", "Scanner.scanFieldIdentifier", "Scanner.scanComment", "Scanner.skipWhitespace",
+			"Scanner.recoverParen", "Scanner.consumeQuotes", "Scanner.scanHashes", "Scanner.consumeStringClose",
+			"Scanner.scanEscape", "Scanner.scanString", "Scanner.popInterpolation", "Scanner.ResumeInterpolation",
+			"Scanner.scanAttribute", "Scanner.scanAttributeTokens", "Scanner.switch2", "Scanner.Scan")
 	}
 }
